@@ -5,7 +5,9 @@ import (
 	"encoding/base64"
 	"errors"
 	"fmt"
+	"io"
 	"net/http"
+	"sort"
 	"strings"
 	"testing"
 
@@ -103,18 +105,20 @@ func c06Bodies() []c06BodyGen {
 		}})
 	}
 	endStreams := map[string]string{
-		"es-empty-obj":      `{}`,
-		"es-error-no-code":  `{"error":{"message":"x"}}`,
-		"es-error-code_0":   `{"error":{"code":"code_0","message":"x"}}`,
-		"es-error-code_big": `{"error":{"code":"code_4294967296"}}`,
-		"es-error-unknown":  `{"error":{"code":"teapot"}}`,
-		"es-error-valid":    `{"error":{"code":"aborted","message":"ab"},"metadata":{"x-low":["v"],"X-Up":["w"]}}`,
-		"es-null":           `null`,
-		"es-error-null":     `{"error":null}`,
-		"es-wrong-types":    `{"error":"boom","metadata":[1,2]}`,
-		"es-meta-lower":     `{"metadata":{"x-low":["v1","v2"]}}`,
-		"es-invalid":        `{"error":`,
-		"es-empty":          ``,
+		"es-empty-obj":       `{}`,
+		"es-error-no-code":   `{"error":{"message":"x"}}`,
+		"es-error-code_0":    `{"error":{"code":"code_0","message":"x"}}`,
+		"es-error-code_big":  `{"error":{"code":"code_4294967296"}}`,
+		"es-error-unknown":   `{"error":{"code":"teapot"}}`,
+		"es-error-valid":     `{"error":{"code":"aborted","message":"ab"},"metadata":{"x-low":["v"],"X-Up":["w"]}}`,
+		"es-null":            `null`,
+		"es-error-null":      `{"error":null}`,
+		"es-wrong-types":     `{"error":"boom","metadata":[1,2]}`,
+		"es-meta-lower":      `{"metadata":{"x-low":["v1","v2"]}}`,
+		"es-meta-spellings":  `{"metadata":{"x-dup":["a"],"X-Dup":["b"],"X-DUP":["c"]}}`,
+		"es-error-spellings": `{"error":{"code":"aborted","message":"ab"},"metadata":{"x-dup":["a"],"X-Dup":["b"],"X-DUP":["c"]}}`,
+		"es-invalid":         `{"error":`,
+		"es-empty":           ``,
 	}
 	for name, js := range endStreams {
 		name, js := name, js
@@ -125,6 +129,7 @@ func c06Bodies() []c06BodyGen {
 	webTrailers := map[string]string{
 		"wt-no-status":  "x-a: b\r\n",
 		"wt-mixed-case": "GrPc-StAtUs: 0\r\nX-lOw: v\r\n",
+		"wt-spellings":  "grpc-status: 0\r\nx-dup: a\r\nX-Dup: b\r\nX-DUP: c\r\n",
 		"wt-malformed":  "no colon line\r\ngrpc-status 0\r\n",
 		"wt-empty":      "",
 		"wt-status-7":   "grpc-status: 7\r\ngrpc-message: denied%21\r\n",
@@ -155,6 +160,11 @@ type c06Case struct {
 	Body    string `json:"body"`          // name in the body menu, or "raw"
 	Raw     []byte `json:"raw,omitempty"` // body bytes when Body == "raw"
 	Dev     int    `json:"dev"`           // number of deviations from the valid response
+	// TakeSet/Take: the peer takes exactly Take bytes of the request body, then
+	// answers and returns (the transport then closes the request body while the
+	// client may be in the middle of writing a message).
+	TakeSet bool `json:"take_set,omitempty"`
+	Take    int  `json:"take,omitempty"`
 }
 
 func (k c06Case) key() string {
@@ -165,6 +175,9 @@ func (k c06Case) key() string {
 	body := k.Body
 	if body == "raw" {
 		body = fmt.Sprintf("raw:%x", k.Raw)
+	}
+	if k.TakeSet {
+		body += fmt.Sprintf("/take=%d", k.Take)
 	}
 	return fmt.Sprintf("%s/%s/%s/st%d/ct=%s/enc=%s/hs=%s/ts=%s/msg=%q/det=%s/body=%s", k.Proto, k.Kind, codec, k.Status, k.CT, k.Enc, k.HStatus, k.TStatus, k.Msg, k.Details, body)
 }
@@ -253,6 +266,17 @@ func c06Check(c *ev.Collector, k c06Case) {
 	}
 	header.Set("X-Mixed-case", "hv")
 	tr := &memhttp.Transport{Handler: refwire.Handler(k.Status, header, body, trailer), Proto: 2, SyncCloseReq: true}
+	if k.TakeSet {
+		tags = append(tags, fmt.Sprintf("take=%d", k.Take))
+		inner := tr.Handler
+		tr.ReqMode = memhttp.ReqLazy // the peer's reads pull straight from the client's pipe
+		tr.Handler = http.HandlerFunc(func(w http.ResponseWriter, r *http.Request) {
+			if k.Take > 0 {
+				_, _ = io.ReadFull(r.Body, make([]byte, k.Take))
+			}
+			inner.ServeHTTP(w, r)
+		})
+	}
 	cfg := Cfg{Proto: k.Proto, JSON: k.JSON, Comp: CompDefault, Kind: k.Kind, HTTP: 2}
 	cl := NewClient(tr, cfg, connect.WithReadMaxBytes(1<<16))
 	var res CallResult
@@ -307,6 +331,12 @@ func c06Check(c *ev.Collector, k c06Case) {
 			}
 			// metadata lookups are case-insensitive whatever the peer's casing
 			switch k.Body {
+			case "es-error-spellings":
+				if k.Status == 200 && k.Proto == PConnect && k.Kind != KUnary && ce.Code() == connect.CodeAborted {
+					if got := sortedCopy(ce.Meta().Values("X-Dup")); strings.Join(got, ",") != "a,b,c" {
+						viol("case-insensitive-lookup", "missing", "end-stream metadata sent as x-dup / X-Dup / X-DUP: Values(\"X-Dup\") = %v, want a b c in some order", got)
+					}
+				}
 			case "es-error-valid":
 				if k.Status == 200 && k.Proto == PConnect && k.Kind != KUnary && ce.Code() == connect.CodeAborted {
 					if ce.Meta().Get("X-Low") != "v" || ce.Meta().Get("X-Up") != "w" {
@@ -322,6 +352,11 @@ func c06Check(c *ev.Collector, k c06Case) {
 		if (k.Body == "es-meta-lower") && k.Proto == PConnect && k.Kind != KUnary && k.Dev <= 1 {
 			if got := res.Trailer.Values("X-Low"); len(got) != 2 {
 				viol("case-insensitive-lookup", "missing", "end-stream metadata key x-low not found via Values(\"X-Low\"): trailers %v", res.Trailer)
+			}
+		}
+		if (k.Body == "es-meta-spellings" && k.Proto == PConnect && k.Kind != KUnary || k.Body == "wt-spellings" && k.Proto == PGRPCWeb) && k.Dev <= 1 {
+			if got := sortedCopy(res.Trailer.Values("X-Dup")); strings.Join(got, ",") != "a,b,c" {
+				viol("case-insensitive-lookup", "missing", "trailer metadata sent as x-dup / X-Dup / X-DUP: Values(\"X-Dup\") = %v, want a b c in some order", got)
 			}
 		}
 		if k.Body == "wt-mixed-case" && k.Proto == PGRPCWeb && k.Dev <= 1 {
@@ -402,6 +437,25 @@ func TestC06(t *testing.T) {
 			}
 		}
 	}
+	// the peer answers (non-200, or a valid response) after taking exactly k bytes of the request body
+	for _, p := range AllProtos {
+		for _, kind := range AllKinds {
+			for _, st := range []int{401, 404, 503, 200} {
+				for _, take := range []int{0, 1, 3, 5, 6, 7, 64} {
+					idx++
+					if !ev.Mine(idx) {
+						continue
+					}
+					k := c06Case{Proto: p, Kind: kind, Status: st, CT: "echo", Enc: "-", HStatus: "-", TStatus: "-", Msg: "-", Details: "-", Body: "valid", Dev: 1, TakeSet: true, Take: take}
+					if st != 200 {
+						k.Body = "empty"
+					}
+					c.Case(k.key(), true)
+					Bubble(t, func() { c06Check(c, k) })
+				}
+			}
+		}
+	}
 	// raw bodies
 	alphabet := []byte{0x00, 0x01, 0x02, 0x80, '{', '}', '"'}
 	for _, p := range AllProtos {
@@ -427,4 +481,10 @@ func TestC06(t *testing.T) {
 		}
 	}
 	_ = strings.TrimSpace
+}
+
+func sortedCopy(in []string) []string {
+	out := append([]string(nil), in...)
+	sort.Strings(out)
+	return out
 }
